@@ -433,6 +433,7 @@ type EnvOpts struct {
 	BoltFile      string // file name inside Dir; default "kapacitor.db"
 	Influx        InfluxDBService
 	StoreWrap     func(ns string, s storage.Interface) storage.Interface
+	OnStore       func(s *Store) // called when the Bolt store is open, before any service uses it
 	Prepare       func(e *Env) // called before tm.Open()
 	TMName        string       // TaskMaster id (default: process-unique); restart cases reuse one
 }
@@ -475,6 +476,9 @@ func NewEnv(o EnvOpts) (*Env, error) {
 		}
 		st.Wrap = o.StoreWrap
 		e.Store = st
+		if o.OnStore != nil {
+			o.OnStore(st)
+		}
 		as := alertservice.NewService(DiagService.NewAlertServiceHandler(), nil, 0)
 		as.StorageService = st
 		as.HTTPDService = HTTPDStub{}
